@@ -130,16 +130,22 @@ STRUCTURAL = ("The supplied node should be a PSyIR Assignment", "should be in a 
               "varying numbers of ranges")
 
 
-def case_a2l(prog, path, verbose):
+def case_a2l(prog, path, optspec):
+    """`optspec` is None or a dict; the model's `verbose` input is what the caller asked for
+    (options["verbose"], absent = False); c1/c2 = outcome of the real validate without `verbose`"""
     from psyclone.psyir.nodes import Assignment
     from psyclone.psyir.transformations import ArrayAssignment2LoopsTrans, TransformationError
+    if optspec is not None and not isinstance(optspec, dict):
+        return None
+    verbose = bool((optspec or {}).get("verbose", False))
+    quiet = {k: v for k, v in (optspec or {}).items() if k != "verbose"}
     t0 = prog.fresh()
     node = S.resolve(t0.root, path)
     if not isinstance(node, Assignment):
         return None
     c1 = c2 = True
     try:
-        ArrayAssignment2LoopsTrans().validate(node, options={})
+        ArrayAssignment2LoopsTrans().validate(node, options=dict(quiet, verbose=False))
     except TransformationError as err:
         msg = str(err.value)
         if any(s in msg for s in STRUCTURAL):
@@ -153,7 +159,7 @@ def case_a2l(prog, path, verbose):
     node = S.resolve(tree.root, path)
     parent, pos = node.parent, node.position
     had_comment = bool(node.preceding_comment)
-    out = _apply(ArrayAssignment2LoopsTrans(), (node,), {"verbose": True} if verbose else {})
+    out = _apply(ArrayAssignment2LoopsTrans(), (node,), None if optspec is None else dict(optspec))
     if out.startswith("error") or had_comment:
         return None
     after = S.snapshot(tree)
@@ -161,7 +167,8 @@ def case_a2l(prog, path, verbose):
     loops = parent.children[pos] is not node
     return {"line": sx(["a2l", verbose, c1, c2]),
             "impl": sx([1 if out == "accepted" else 0, comment, loops]),
-            "changed": before != after, "refused": out == "refused", "desc": ["ArrayAssignment2LoopsTrans", path, verbose]}
+            "changed": before != after, "refused": out == "refused",
+            "desc": ["ArrayAssignment2LoopsTrans", path, optspec]}
 
 
 # ---------------------------------------------------------------------------------------------
